@@ -1,7 +1,7 @@
 (* C02 - A membership verification that succeeds is always a true membership.
    Statement only; the proof is `exact` a lemma of Balloon/BalloonProofs.v. *)
 From QV Require Import Base.Util Base.HashSig History.HistModel History.HistSpec Hyper.HyperModel
-  Balloon.Balloon Balloon.BalloonProofs Balloon.AutoVerify Balloon.AutoVerifyProofs Properties.Instance Base.ShaInst Base.Enc.
+  Balloon.Balloon Balloon.BalloonProofs Balloon.AutoVerify Balloon.AutoVerifyProofs Properties.Instance Base.Layout Base.Enc.
 
 Section C02.
   Variables D E V : Type.
